@@ -43,6 +43,7 @@ pub struct Expect {
     pub expect_reads: BTreeSet<String>,
     pub removed: Vec<String>,
     pub flattened: Option<String>,
+    pub main_marker: Option<String>,
 }
 
 impl Expect {
@@ -56,6 +57,7 @@ impl Expect {
             expect_reads: strs("expect_reads").into_iter().collect(),
             removed: strs("removed"),
             flattened: j.get("flattened").and_then(|t| t.as_str()).map(|s| s.to_string()),
+            main_marker: j.get("main_marker").and_then(|t| t.as_str()).map(|s| s.to_string()),
         }
     }
 }
@@ -119,6 +121,24 @@ pub fn check(c: &Concrete, ex: &Expect) -> (Vec<Violation>, Outcome, Option<Outc
             }
         }
     }
+    // 8. the entry point is the main file's `start`, whatever other files define under that name
+    if ex.expect_ok && matches!(out.result, ResultObs::Ok) {
+        if let Some(main_marker) = &ex.main_marker {
+            match entry_function_body(&out.sink_bytes) {
+                Some(body) => {
+                    if !body.contains(main_marker.as_str()) {
+                        let other = body.lines().find(|l| l.contains("ZMARK-")).unwrap_or("").trim().to_string();
+                        vs.push(v(
+                            "wrong-entry-point",
+                            "-",
+                            format!("the function the emitted program calls at the end is not the main file's `start` (expected marker {}, found: {})", main_marker, other),
+                        ));
+                    }
+                }
+                None => {} // emitter shape not recognised: no verdict (counted by the caller)
+            }
+        }
+    }
     // 4b. acceptance is invariant under splitting: the same globals in one file
     let mut flat_out = None;
     if let Some(flat) = &ex.flattened {
@@ -138,6 +158,25 @@ pub fn check(c: &Concrete, ex: &Expect) -> (Vec<Violation>, Outcome, Option<Outc
         flat_out = Some(fo);
     }
     (vs, out, flat_out)
+}
+
+/// The body of the function that the last line of the emitted Lua calls (`local Vn = Vk()`),
+/// found textually; None if the output does not have that shape.
+pub fn entry_function_body(lua: &[u8]) -> Option<String> {
+    let text = std::str::from_utf8(lua).ok()?;
+    let last = text.lines().rev().find(|l| !l.trim().is_empty())?;
+    // local V20 = V0()
+    let call = last.trim().strip_prefix("local ")?.split(" = ").nth(1)?;
+    let name = call.strip_suffix("()")?;
+    if !name.starts_with('V') || !name[1..].chars().all(|c| c.is_ascii_digit()) {
+        return None;
+    }
+    let header = format!("local function {}(", name);
+    let start = text.find(&header)?;
+    let rest = &text[start..];
+    // top-level functions are closed by an `end` in column 0
+    let stop = rest.find("\nend\n").map(|i| i + 5).unwrap_or(rest.len());
+    Some(rest[..stop].to_string())
 }
 
 pub fn reevaluate(c: &Concrete, extra: &J) -> Vec<Violation> {
@@ -195,6 +234,13 @@ pub fn run_one(_env: &Env, index: u64, seed: u64, stats: &mut Stats) -> (Vec<Fou
         }
     } else if matches!(out.result, ResultObs::Ok) {
         stats.inc("c12.positive_accepted");
+    }
+    if matches!(out.result, ResultObs::Ok) && p.expect_ok {
+        if entry_function_body(&out.sink_bytes).is_some() {
+            stats.inc("c12.entry_point_checked");
+        } else {
+            stats.inc("c12.entry_point_shape_not_recognised");
+        }
     }
     if flat.as_ref().map(|f| matches!(f.result, ResultObs::Ok)).unwrap_or(false) {
         stats.inc("c12.flattened_accepted");
